@@ -75,7 +75,20 @@ func (w *World) guardUp(fn *ssa.Function, point *ssa.BasicBlock, val ssa.Value, 
 // upValues follows a value upwards through direct parameter forwarding and returns (function, value)
 // pairs at which the value stops being a parameter.
 func (w *World) upValues(fn *ssa.Function, v ssa.Value, depth int) [][2]interface{} {
-	p, ok := v.(*ssa.Parameter)
+	// interface conversions of a parameter hand the same object on
+	bare := v
+	for i := 0; i < 3; i++ {
+		switch x := bare.(type) {
+		case *ssa.MakeInterface:
+			bare = x.X
+			continue
+		case *ssa.ChangeInterface:
+			bare = x.X
+			continue
+		}
+		break
+	}
+	p, ok := bare.(*ssa.Parameter)
 	if !ok || depth > 4 {
 		return [][2]interface{}{{fn, v}}
 	}
@@ -142,24 +155,37 @@ func checkC09(w *World, r *Report) {
 		}
 		fn := s.Caller
 		pos := w.Pos(s.Instr.Pos())
-		acc := s.Args()[len(s.Args())-1]
-		o := tr.Origins(acc)
-		news := append(o.CallsNamed("NewAccountWithAddress"), o.CallsNamed(".NewAccount")...)
-		gets := o.CallsNamed(".GetAccount")
-		switch {
-		case len(news) > 0 && len(gets) == 0:
-			r.Enum("C09.sites", "SetAccount in "+funcName(fn)+" (fresh account)", pos, "account value originates from NewAccountWithAddress")
-			for _, nc := range news {
-				a := nc.Common().Args
-				addr := a[len(a)-1]
-				ok, why := w.guardUp(fn, s.Instr.Block(), addr, 0, "")
-				r.Check(ok, "C09.fresh", "SetAccount in "+funcName(fn)+": address not yet in use", pos, "GetAccount(addr)==nil edge dominates on every chain: "+why, "an existing account at this address can be overwritten: "+why)
+		acc0 := s.Args()[len(s.Args())-1]
+		// the write may sit in a helper that is handed the account: the account value is followed through pass-through
+		// parameters to every caller and classified there
+		for _, pair := range w.upValues(fn, acc0, 0) {
+			af := pair[0].(*ssa.Function)
+			acc := pair[1].(ssa.Value)
+			where := funcName(fn)
+			if af != fn {
+				where += " (account handed in by " + funcName(af) + ")"
 			}
-		case len(gets) > 0 && len(news) == 0:
-			r.Enum("C09.sites", "SetAccount in "+funcName(fn)+" (existing account)", pos, "account value originates from GetAccount")
-			c09self(w, r, s, gets, tr)
-		default:
-			r.Bad("C09.sites", "SetAccount in "+funcName(fn)+" (unclassified)", pos, "the stored account is neither a fresh account nor one read by GetAccount: "+o.String())
+			o := tr.Origins(acc)
+			news := append(o.CallsNamed("NewAccountWithAddress"), o.CallsNamed(".NewAccount")...)
+			gets := o.CallsNamed(".GetAccount")
+			switch {
+			case len(news) > 0 && len(gets) == 0:
+				r.Enum("C09.sites", "SetAccount in "+where+" (fresh account)", pos, "account value originates from NewAccountWithAddress")
+				for _, nc := range news {
+					a := nc.Common().Args
+					addr := a[len(a)-1]
+					ok, why := w.guardUp(nc.Parent(), nc.Block(), addr, 0, "")
+					if nc.Parent() == fn {
+						ok, why = w.guardUp(fn, s.Instr.Block(), addr, 0, "")
+					}
+					r.Check(ok, "C09.fresh", "SetAccount in "+where+": address not yet in use", pos, "GetAccount(addr)==nil edge dominates on every chain: "+why, "an existing account at this address can be overwritten: "+why)
+				}
+			case len(gets) > 0 && len(news) == 0:
+				r.Enum("C09.sites", "SetAccount in "+where+" (existing account)", pos, "account value originates from GetAccount")
+				c09self(w, r, s, gets, tr)
+			default:
+				r.Bad("C09.sites", "SetAccount in "+where+" (unclassified)", pos, "the stored account is neither a fresh account nor one read by GetAccount: "+o.String())
+			}
 		}
 	}
 	if w.Tier == "thorough" {
@@ -179,10 +205,51 @@ func c09self(w *World, r *Report, s *Site, gets []*ssa.Call, tr *Tracer) {
 	ro := w.Roles()
 	// the account written back is the very object that was read: same type, number, sequence, key; a converted or
 	// rebuilt account replaces the existing one
-	r.Check(isObjectReadBy(s.Args()[len(s.Args())-1], ".GetAccount"), "C09.self", funcName(fn)+": the account stored is the object that was read", pos,
+	r.Check(w.objectReadBy(s.Args()[len(s.Args())-1], ".GetAccount", 0), "C09.self", funcName(fn)+": the account stored is the object that was read", pos,
 		"SetAccount receives the (type-asserted) result of GetAccount", "the account written back is not the object that was read but a converted or rebuilt one: the existing account is replaced (type, and every field the constructor is not given)")
-	// field stores to vesting account types in fn: only OriginalVesting
-	for _, fs := range FieldStores(fn) {
+	// the operation: the function that holds the write, or - when the read and the write sit in different helpers - the
+	// nearest caller below which both lie; its whole tree is inspected for modifications of the account
+	cg := w.CG()
+	op := fn
+	holds := func(root *ssa.Function) bool {
+		for _, g := range gets {
+			found := g.Parent() == root
+			if !found {
+				for _, e := range w.effectsBelow(root, func(x *Site) bool { return x.Instr == ssa.CallInstruction(g) }, 3) {
+					_ = e
+					found = true
+				}
+			}
+			if !found {
+				return false
+			}
+		}
+		return true
+	}
+	for lvl := 0; lvl < 3 && !holds(op); lvl++ {
+		callers := cg.Callers[op]
+		if len(callers) != 1 {
+			break
+		}
+		op = callers[0].Caller
+	}
+	var opFns []*ssa.Function
+	opFns = append(opFns, op)
+	seenOp := map[*ssa.Function]bool{op: true}
+	for _, e := range w.effectsBelow(op, func(x *Site) bool { return x == s || cg.Atom(x) == AuthGet }, 3) {
+		for _, c := range e.Chain {
+			if !seenOp[c.Static] {
+				seenOp[c.Static] = true
+				opFns = append(opFns, c.Static)
+			}
+		}
+	}
+	// field stores to vesting account types in the operation: only OriginalVesting
+	var opStores []FieldStore
+	for _, f := range opFns {
+		opStores = append(opStores, FieldStores(f)...)
+	}
+	for _, fs := range opStores {
 		if fs.Struct == nil || fs.Struct.Obj().Pkg() == nil {
 			continue
 		}
@@ -193,8 +260,11 @@ func c09self(w *World, r *Report, s *Site, gets []*ssa.Call, tr *Tracer) {
 		}
 	}
 	// mutating methods on the account other than field stores
-	cg := w.CG()
-	for _, s2 := range cg.Sites[fn] {
+	var opSites []*Site
+	for _, f := range opFns {
+		opSites = append(opSites, cg.Sites[f]...)
+	}
+	for _, s2 := range opSites {
 		if strings.HasPrefix(s2.Method, "Set") && s2.RecvType != nil && strings.Contains(typeString(s2.RecvType), "x/auth/") && cg.Atom(s2) == "" {
 			r.Bad("C09.self", funcName(fn)+": "+s2.Method+" on the existing account", w.Pos(s2.Instr.Pos()), "the existing account is modified through a setter")
 		}
@@ -203,7 +273,7 @@ func c09self(w *World, r *Report, s *Site, gets []*ssa.Call, tr *Tracer) {
 	for _, g := range gets {
 		a := g.Common().Args
 		owner := a[len(a)-1]
-		for _, pair := range w.upValues(fn, owner, 0) {
+		for _, pair := range w.upValues(g.Parent(), owner, 0) {
 			f := pair[0].(*ssa.Function)
 			v := pair[1].(ssa.Value)
 			// f should be a handler (or reach one directly)
